@@ -163,6 +163,8 @@ def run_sequence(lib, p11drv, opdrv, seed, idx):
     conf = vlib.write_conf(d)
     env = dict(os.environ)
     env['SOFTHSM2_CONF'] = conf
+    from p11i import P11 as _P11
+    env.update(_P11.EXTRA_ENV)
     rp = subprocess.Popen([p11drv, lib, '-'], stdin=subprocess.PIPE, stdout=subprocess.PIPE, text=True, bufsize=1, env=env)
     m = OpModel(opdrv)
     trace = []
